@@ -272,7 +272,7 @@ public:
         m_writer.write(value_type(XalanUnicode::charHyphenMinus));
         m_writer.write(value_type(XalanUnicode::charHyphenMinus));
 
-        writeNormalizedData(data, XalanDOMString::length(data));
+        writeNormalizedData(data, XalanDOMString::length(data), true);
 
         m_writer.write(value_type(XalanUnicode::charHyphenMinus));
         m_writer.write(value_type(XalanUnicode::charHyphenMinus));
@@ -403,7 +403,7 @@ protected:
             m_writer.write(value_type(XalanUnicode::charSpace));
         }
 
-        writeNormalizedData(data, len);
+        writeNormalizedData(data, len, false);
 
         m_writer.write(value_type(XalanUnicode::charQuestionMark));
         m_writer.write(value_type(XalanUnicode::charGreaterThanSign));
@@ -628,41 +628,6 @@ protected:
         }
     }
 
-    /**
-    * Write a normalized character to the stream.
-    * @param ch the string to write.
-    * @param start the start offset into the string.
-    * @param length the length of the string.
-    */
-    size_type
-    writeNormalizedChar(
-        XalanDOMChar        ch,
-        const XalanDOMChar  chars[],
-        size_type           start,
-        size_type           length)
-    {
-        if (XalanUnicode::charLF == ch)
-        {
-            outputNewline();
-        }
-        else 
-        {
-            if(m_charPredicate.isCharRefForbidden(ch))
-            {
-                throwInvalidXMLCharacterException(
-                    ch,
-                    m_version,
-                    getMemoryManager());
-            }
-            else
-            {
-                start = m_writer.write( chars, start, length);
-            }
-        }
-
-        return start;
-    }
-
     void
     writeNumericCharacterReference(XMLUInt32  theNumber)
     {
@@ -846,20 +811,60 @@ private:
     }
 
     /**
-     * Write normalized data.
+     * Write the data of a comment or of a processing instruction.
+     * Character references are not recognized there, so a character
+     * the encoding cannot represent is an error: the writer's
+     * writeCommentChars() and writePIChars() throw for it.
+     *
      * @param theData the data to write.
-     * @param theLength the data to write.
+     * @param theLength the length of the data.
+     * @param isComment true for a comment, false for a processing instruction.
      */
     void
     writeNormalizedData(
             const XalanDOMChar*     theData,
-            size_type               theLength)
+            size_type               theLength,
+            bool                    isComment)
     {
+        size_type   firstIndex = 0;
+
         for (size_type i = 0; i < theLength; ++i)
         {
             const XalanDOMChar  theChar = theData[i];
 
-            i = writeNormalizedChar(theChar, theData, i, theLength);
+            if (XalanUnicode::charLF == theChar)
+            {
+                writeRawData(theData + firstIndex, i - firstIndex, isComment);
+
+                outputNewline();
+
+                firstIndex = i + 1;
+            }
+            else if(m_charPredicate.isCharRefForbidden(theChar))
+            {
+                throwInvalidXMLCharacterException(
+                    theChar,
+                    m_version,
+                    getMemoryManager());
+            }
+        }
+
+        writeRawData(theData + firstIndex, theLength - firstIndex, isComment);
+    }
+
+    void
+    writeRawData(
+            const XalanDOMChar*     theData,
+            size_type               theLength,
+            bool                    isComment)
+    {
+        if (isComment == true)
+        {
+            m_writer.writeCommentChars(theData, theLength);
+        }
+        else
+        {
+            m_writer.writePIChars(theData, theLength);
         }
     }
 
